@@ -1,5 +1,5 @@
 import Driver.Common
-import EgVerif.Model.ProxyE2E
+import EgVerif.Model.ProxyFlow
 import EgVerif.Spec.Proxy
 import EgVerif.Spec.Payload
 /-!
@@ -107,10 +107,60 @@ def parseAd (j : Json) (k : String) : Option AdSpec :=
            hdel := (getStrList a "hdel").toOption.getD [], hset := parsePairs a "hset", hadd := parsePairs a "hadd" }
   | _ => none
 
+def parsePathAd (j : Json) : Option PathAd :=
+  match j.getObjVal? "path" with
+  | .ok (.obj o) =>
+    let p := Json.obj o
+    let re := optStr p "regexp"
+    some { replace := optStr p "replace", addPrefix := optStr p "addPrefix", trimPrefix := optStr p "trimPrefix",
+           re := if re == "" then none else some (0, optStr p "reRepl") }
+  | _ => none
+
+def parseReqLine (j : Json) (k : String) : ReqLineAd :=
+  match j.getObjVal? k with
+  | .ok (.obj o) =>
+    let a := Json.obj o
+    { method := optStr a "method", host := optStr a "host", path := parsePathAd a }
+  | _ => {}
+
+structure RetryCfg where
+  max : Nat
+  failureCodes : List Nat
+deriving Inhabited
+
+def parseRetry (cfg : Json) : Option RetryCfg :=
+  match cfg.getObjVal? "retry" with
+  | .ok (.obj o) =>
+    let r := Json.obj o
+    let m := (optInt r "max").toNat
+    if m == 0 then none else some ⟨m, ((getIntList r "failureCodes").toOption.getD []).map Int.toNat⟩
+  | _ => none
+
+structure MirrorCfg where
+  hdr : String
+  val : String
+  serverKind : String
+  keepHost : Bool
+deriving Inhabited
+
+def parseMirror (cfg : Json) : Option MirrorCfg :=
+  match cfg.getObjVal? "mirror" with
+  | .ok (.obj o) =>
+    let m := Json.obj o
+    if optStr m "hdr" == "" then none
+    else some ⟨optStr m "hdr", optStr m "val", optStr m "server" "ip", optBool m "keepHost"⟩
+  | _ => none
+
+/-- `[{kind, status}]`: the scripted failures before the final reply. -/
+def parsePre (be : Json) : List (String × Nat) :=
+  match getArr be "pre" with
+  | .ok a => a.toList.map fun e =>
+      let st := (optInt e "status" 503).toNat
+      (optStr e "kind" "status", if st < 200 || st > 599 || st == 204 || st == 304 then 503 else st)
+  | .error _ => []
+
 /-- `h.Del/Set/Add` canonicalise their key. -/
-def canonAd (canon : String → String) (a : AdSpec) : AdSpec :=
-  { a with hdel := a.hdel.map canon, hset := a.hset.map (fun kv => (canon kv.1, kv.2)),
-           hadd := a.hadd.map (fun kv => (canon kv.1, kv.2)) }
+def canonAd (canon : String → String) (a : AdSpec) : AdSpec := a.canonKeys canon
 
 def parseCache (cfg : Json) : Option CacheCfg :=
   match cfg.getObjVal? "cache" with
@@ -138,6 +188,10 @@ structure Scenario where
   proxyMax : Int
   reqAd : Option AdSpec
   respAd : Option AdSpec
+  reqLine : ReqLineAd
+  retry : Option RetryCfg
+  mirror : Option MirrorCfg
+  pre : List (String × Nat)
   bStatus : Nat
   bLines : List (String × String)
   bBody : BodyD
@@ -154,6 +208,7 @@ def parseScenario (i : Json) : Scenario :=
     pathMax := optInt cfg "pathMax", serverMax := optInt cfg "serverMax",
     poolMax := optInt cfg "poolMax", proxyMax := optInt cfg "proxyMax",
     reqAd := parseAd cfg "reqAd", respAd := parseAd cfg "respAd",
+    reqLine := parseReqLine cfg "reqAd", retry := parseRetry cfg, mirror := parseMirror cfg, pre := parsePre be,
     bStatus := if st < 100 || st > 599 then 200 else st,
     bLines := parsePairs be "hdrs", bBody := parseBodyD be "body" }
 
@@ -175,6 +230,12 @@ structure Oracle where
   escPath : String
   decPath : String
   rawQuery : String
+  reRepl : String
+  esc : List (String × String)
+  pre : Blob
+  stub : Blob
+  mirrorURL : String
+  mirrorHP : String
 
 def parseOracle (obs : Json) : Oracle :=
   let o := (obs.getObjVal? "oracle").toOption.getD Json.null
@@ -182,7 +243,9 @@ def parseOracle (obs : Json) : Oracle :=
     respAd := parseBlob o "respAd", empty := parseBlob o "empty",
     canon := mkCanon (parsePairs o "canon"),
     serverURL := optStr o "serverURL", serverHP := optStr o "serverHP",
-    escPath := optStr o "escPath", decPath := optStr o "decPath", rawQuery := optStr o "rawQuery" }
+    escPath := optStr o "escPath", decPath := optStr o "decPath", rawQuery := optStr o "rawQuery",
+    reRepl := optStr o "reRepl", esc := parsePairs o "esc", pre := parseBlob o "pre", stub := parseBlob o "stub",
+    mirrorURL := optStr o "mirrorURL", mirrorHP := optStr o "mirrorHP" }
 
 def defaultMax : Int := 4 * 1024 * 1024
 
@@ -198,6 +261,7 @@ structure Built where
   reply : BackendReply Sym
   clientHdr : Hdr
   backendHdr : Hdr      -- the scenario's own backend header lines (end-to-end ones)
+  replies : List (Reply Sym)   -- scripted failures, then the final reply
 
 /-- Build the model's inputs from scenario + oracle. `dflt` is DefaultMaxPayloadSize. -/
 def build (sc : Scenario) (o : Oracle) (dflt : Int) : Built :=
@@ -221,14 +285,16 @@ def build (sc : Scenario) (o : Oracle) (dflt : Int) : Built :=
     | "lie" => sc.body.decl
     | _ => wire.len
   let q : ClientReq Sym :=
-    { method := sc.method, escapedPath := o.escPath, rawQuery := o.rawQuery, host := sc.host,
+    { method := sc.method, escapedPath := o.escPath, path := o.decPath, rawQuery := o.rawQuery, host := sc.host,
       hdr := clientHdr, declared := declared, body := wire }
   let serverIsName := sc.serverKind == "name"
   let cfg : Cfg :=
     { server := ⟨o.serverURL, o.serverHP, serverIsName, sc.keepHost⟩,
       compression := if sc.compression < 0 then none else some sc.compression.toNat,
       pathMax := sc.pathMax, serverMax := sc.serverMax, poolMax := sc.poolMax, proxyMax := sc.proxyMax,
-      reqAd := sc.reqAd.map (canonAd o.canon), respAd := sc.respAd.map (canonAd o.canon), dflt := dflt }
+      reqAd := sc.reqAd.map (canonAd o.canon), respAd := sc.respAd.map (canonAd o.canon), dflt := dflt,
+      reqLine := sc.reqLine, σ := fun _ _ _ => o.reRepl,
+      esc := fun p => (o.esc.lookup p).getD ("esc?" ++ p) }
   -- the backend's reply as the transport parses it
   let bwire := wireSym sc.bBody o.back
   let nobody := bodylessStatus sc.bStatus
@@ -243,11 +309,20 @@ def build (sc : Scenario) (o : Oracle) (dflt : Int) : Built :=
         (sc.bBody.decl, bHdr1.set keyCL (toString sc.bBody.decl),
           if sc.bBody.decl.toNat < bwire.len then ops.take sc.bBody.decl.toNat bwire else bwire)
       | _ => ((bwire.len : Int), bHdr1.set keyCL (toString bwire.len), bwire)
+  let preSym := o.pre.plainSym
+  let preReply : Nat → Reply Sym := fun st =>
+    .resp ⟨st, [(keyCL, [toString preSym.len])], if sc.method == "HEAD" then preSym.len else preSym.len,
+      if sc.method == "HEAD" then ops.empty else preSym⟩
+  let replies := sc.pre.map (fun (k, st) => if k == "reset" then Reply.reset else preReply st)
   { ops := ops, cfg := cfg, q := q, reply := ⟨sc.bStatus, bHdr, bcl, bbody⟩,
-    clientHdr := clientHdr, backendHdr := bHdr0 }
+    clientHdr := clientHdr, backendHdr := bHdr0, replies := replies ++ [.resp ⟨sc.bStatus, bHdr, bcl, bbody⟩] }
 
 def runModel (b : Built) (canon : String → String) : Result Sym :=
   run b.ops canon b.cfg b.q b.reply
+
+def runModelRetry (sc : Scenario) (b : Built) (canon : String → String) : RetryResult Sym :=
+  runRetry b.ops canon b.cfg (sc.retry.map (·.max)) (match sc.retry with | some r => r.failureCodes | none => [])
+    b.q b.replies
 
 /-- Observation accessors. -/
 structure SeenReq where
@@ -263,17 +338,26 @@ structure SeenReq where
   decSum : String
   decErr : String
   te : List String
+  bodyErr : String := ""
 
-def parseSeenReq (obs : Json) : Option SeenReq :=
-  match obs.getObjVal? "b" with
-  | .ok (.obj o) =>
-    let b := Json.obj o
-    some { method := optStr b "method", uri := optStr b "uri", path := optStr b "path",
+def seenReqOf (b : Json) : SeenReq :=
+         { method := optStr b "method", uri := optStr b "uri", path := optStr b "path",
            rawQuery := optStr b "rawQuery", host := optStr b "host", hdr := parseSeenHdr b "hdrs",
            bodyLen := (optInt b "bodyLen").toNat, bodySum := optStr b "bodySum",
            decLen := (optInt b "decLen").toNat, decSum := optStr b "decSum", decErr := optStr b "decErr",
-           te := (getStrList b "te").toOption.getD [] }
+           te := (getStrList b "te").toOption.getD [], bodyErr := optStr b "bodyErr" }
+
+def parseSeenReqAt (obs : Json) (k : String) : Option SeenReq :=
+  match obs.getObjVal? k with
+  | .ok (.obj o) => some (seenReqOf (Json.obj o))
   | _ => none
+
+def parseSeenReq (obs : Json) : Option SeenReq := parseSeenReqAt obs "b"
+
+def parseSeenAll (obs : Json) : List SeenReq :=
+  match getArr obs "all" with
+  | .ok a => a.toList.map seenReqOf
+  | .error _ => []
 
 structure SeenResp where
   err : String
